@@ -535,6 +535,56 @@ def z_build(raw, sid, ncode):
             "first_op": raw['evs'][0]['op'], "pred": {"start": start, "size": size}}
 
 
+def z_random(rnd, ncode, sid, length):
+    """a random history of O(1) operations on zero-sized elements at one of the extreme capacities (the contract's
+    length / flag / result / destructor-count clauses are the oracle): positions drift away from 0 in both directions"""
+    base = Z_BASE.get(ncode)
+    top = 1 << 30
+    def idx():
+        c = [0, 1, 2, 3, rnd.randint(0, 6), top]
+        if base is not None:
+            c += [base - 1, base, min(base + 1, top)]
+        return rnd.choice(c)
+    def bnd():
+        return rnd.choice([["u"], ["i", rnd.randint(0, 4)], ["e", rnd.randint(0, 5)], ["i", 0], ["e", idx()]])
+    steps = [{"op": "new"}]
+    viewing = False
+    for _ in range(length):
+        if viewing:
+            op = rnd.choice(["v_next", "v_next", "v_next_back", "v_len", "v_drop", "v_drop"])
+            steps.append({"op": op})
+            viewing = op != "v_drop"
+            continue
+        r = rnd.random()
+        if r < 0.38:
+            steps.append({"op": rnd.choice(["push_back", "push_back", "push_front", "push_front", "try_push_back", "try_push_front"])})
+        elif r < 0.58:
+            steps.append({"op": rnd.choice(["pop_front", "pop_front", "pop_back"])})
+        elif r < 0.66:
+            steps.append({"op": rnd.choice(["remove", "swap_remove_back", "swap_remove_front"]), "i": idx()})
+        elif r < 0.70:
+            steps.append({"op": "swap", "i": rnd.choice([0, 1, 2, idx()]), "j": rnd.choice([0, 1, 2, idx()])})
+        elif r < 0.76:
+            steps.append({"op": rnd.choice(["truncate_back", "truncate_front"]), "i": idx()})
+        elif r < 0.78:
+            steps.append({"op": "clear"})
+        elif r < 0.83:
+            steps.append({"op": rnd.choice(["extend", "extend_from_slice"]), "i": rnd.randint(0, 3)})
+        elif r < 0.90:
+            steps.append({"op": rnd.choice(["get", "nth_front", "nth_back", "get_mut", "nth_back_mut", "index", "front", "back", "back_mut",
+                                            "as_slices", "as_mut_slices", "make_contiguous"]), "i": idx()})
+        elif r < 0.97:
+            op = rnd.choice(["drain", "drain", "range", "range_mut", "iter", "iter_mut"])
+            steps.append({"op": op, "bs": bnd(), "be": bnd()})
+            viewing = True        # (a documented panic on bad bounds leaves no view: the harness skips the view steps then)
+        else:
+            steps.append({"op": "caller_drop"})
+    if viewing:
+        steps.append({"op": "v_drop"})
+    steps += [{"op": "as_slices"}, {"op": "push_front"}, {"op": "pop_back"}, {"op": "as_slices"}]
+    return {"id": sid, "ty": "z", "ncode": ncode, "n": 0, "tags": ["zst", ncode, "random"], "steps": steps, "first_op": "random"}
+
+
 # ------------------------------------------------------------------------------------------------
 # seeded random long histories at larger capacities (direction B only: the contract is the oracle)
 
